@@ -58,7 +58,9 @@ def run_spec(ctx, rep, spec, model, only=None):
     names = dedup_names(spec["fields"])
     nf = len(spec["fields"])
     with quiet():
-        pck = PlotfileCooker(path)
+        # "maxmins_reader": the reader also holds the per-box minima / maxima of the level headers
+        pck = PlotfileCooker(path, maxmins=True) if spec.get("maxmins_reader") else PlotfileCooker(path)
+        if spec.get("maxmins_reader"): rep.count("reader-opened-with-maxmins")
         if spec.get("compared_first"):
             # the same mesh with its boxes listed in another order, and a comparison of the two readers, before any query
             import copy
@@ -169,9 +171,15 @@ def run_spec(ctx, rep, spec, model, only=None):
     if only is None:
         G = [spec["geo_low"][d] + spec["grid0"][d] * spec["dx0"][d] for d in range(3)]
         mid = [(spec["geo_low"][d] + G[d]) / 2 for d in range(3)]
-        for d in range(3):
-            for v in (spec["geo_low"][d] - spec["dx0"][d], G[d] + spec["dx0"][d] / 4):
-                pt = list(mid); pt[d] = v
+        nanpts = [(d, float("nan")) for d in range(3)] + [(None, float("nan"))]
+        for d, v in [(d, v) for d in range(3) for v in (spec["geo_low"][d] - spec["dx0"][d], G[d] + spec["dx0"][d] / 4)] + nanpts:
+            if True:
+                # (a coordinate that is not a number lies in no box: such a point is not in the domain either)
+                pt = list(mid)
+                if d is None:
+                    pt = [v, v, v]
+                else:
+                    pt[d] = v
                 case = {"spec": spec, "point": pt, "outside": True}
                 rep.case({"s": spec, "p": pt, "out": 1}); rep.count("outside")
                 try:
@@ -201,6 +209,7 @@ def run(ctx, rep, model=True):
             spec["data"]["field_scale"] = [1e5, 1e-12, 3e-7]        # e.g. pressure next to radical mass fractions
             rep.count("fields-of-very-different-magnitudes")
         if i % 4 == 2: spec["path_form"] = "symlink"
+        if i % 2 == 1: spec["maxmins_reader"] = True
         if i % 6 == 2 and len(spec["levels"]) == 3:
             # refinement ratio 4 (the middle level of a properly nested three-level mesh dropped)
             spec = plotgen.to_ratio4(spec); rep.count("refinement-ratio-4")
